@@ -176,7 +176,7 @@ def check_complete_circuit(run, model, rule):
     run.inst(rule, f, 'leaves the loop only through the guard', not esc, 'the loop can be left while the queue is non-empty', obligation=True)
 
 
-def check_locking_deque(run, model, rule_ends, rule_token, rule_bound, rule_monotone=None):
+def check_locking_deque(run, model, rule_ends, rule_token, rule_bound, rule_monotone=None, rule_repair=None):
     """LockingDeque: forwarding on every path, token protocol, capacity"""
     ld = model.cls('LockingDeque')
     init = ld.methods.get('__init__')
@@ -268,9 +268,23 @@ def check_locking_deque(run, model, rule_ends, rule_token, rule_bound, rule_mono
                                         % {ast.NotEq: '!=', ast.LtE: '<=', ast.Gt: '>', ast.GtE: '>=', ast.Eq: '=='}.get(cp[0], '?')),
                          node=h.ast, obligation=True)
         # a repair test (tokens < items) is evaluated after the add on every path
-        rep = [t for t, op in lt_tests if op is ast.Lt and t.label != 'loop']
+        rep = [t for t, op in lt_tests if op is ast.Lt]
+        # a call of a LockingDeque helper whose own first test is tokens < items counts as the repair test
+        for n2 in g.nodes:
+            if n2.kind in ('entry', 'exit', 'xexit', 'def'):
+                continue
+            for c2 in n2.calls():
+                if isinstance(c2.func, ast.Attribute) and dotted(c2.func.value) == selfn and c2.func.attr in ld.methods and c2.func.attr not in ('append', 'appendleft'):
+                    hm = ld.methods[c2.func.attr]
+                    hg = cfg_of(hm)
+                    first = [m for m, _l in hg.succ[hg.entry]]
+                    if first and first[0].kind == 'test':
+                        cph = compare_parts(first[0].ast)
+                        if cph and cph[1] is ast.Lt and is_qsize(cph[0], hm.params[0], tq) and is_len(cph[2], hm.params[0], dq):
+                            rep.append(n2)
         ok = bool(rep) and all(any(g.postdominates(t, n) for t in rep) for n in same) if same else False
-        run.inst(rule_token, f, 'token repair test post-dominates the add', ok,
+        if rule_repair:
+          run.inst(rule_repair, f, 'token repair test post-dominates the add', ok,
                  '' if ok else 'after adding an item there is a path that neither put a token nor re-tests tokens < items: the consumer is never woken for it (lost wake-up)',
                  obligation=True)
     # ---- removal forwarding and length
